@@ -205,6 +205,12 @@ func (e *Engine) ObservePackage(pkgFullTriggers []annotation.FullTrigger) {
 	triggersToBeDeleted := make(map[int]bool)
 	mapSiteGuardMissing, mapSiteReturn := e.mapGuardMissingAndReturnToFuncSite(pkgFullTriggers)
 	for site, guardMissingIndices := range mapSiteGuardMissing {
+		if e.isAnnotatedNilable(site) {
+			// An explicit `nilable` annotation on the result is binding: the author states that the
+			// result may be nil, so an unguarded use of it must be reported no matter what the
+			// current return statements of the function happen to produce.
+			continue
+		}
 		if returnIndices, ok := mapSiteReturn[site]; ok {
 			// Check if all the return triggers to this function site are non-nil.
 			nonnilCnt := 0
@@ -318,6 +324,21 @@ func (e *Engine) ObservePackage(pkgFullTriggers []annotation.FullTrigger) {
 
 	// Step 4: run the inference building process for only the remaining UseAsNonErrorRetDependentOnErrorRetNilability triggers, and collect assertions
 	e.buildPkgInferenceMap(filteredTriggers)
+}
+
+// isAnnotatedNilable returns true iff the site has been determined to be nilable by an explicit
+// annotation (annotations are observed before any assertion of the package).
+func (e *Engine) isAnnotatedNilable(site primitiveSite) bool {
+	val, ok := e.inferredMap.Load(site)
+	if !ok {
+		return false
+	}
+	determined, ok := val.(*DeterminedVal)
+	if !ok {
+		return false
+	}
+	_, ok = determined.Bool.(TrueBecauseAnnotation)
+	return ok
 }
 
 func (e *Engine) buildPkgInferenceMap(triggers []annotation.FullTrigger) {
